@@ -5,6 +5,7 @@ From Coq Require Import Extraction ExtrOcamlBasic.
 From Coq Require Import NArith ZArith.
 From Coq.Strings Require Import Byte.
 From Slim Require Import Base Keys Model BitmapRank BitmapRank2 Bits Msg.
+From Slim Require Wire EndToEnd.
 Extraction Language OCaml.
 Extraction "bitsx.ml"
   Byte.of_N Byte.to_N N.of_nat N.to_nat N.add N.mul
@@ -15,4 +16,5 @@ Extraction "bitsx.ml"
   BitmapRank2.get_bits BitmapRank2.true_pos
   Bits.encode_trie Bits.trie_wf Bits.init_vars Bits.node_count Bits.get_view Bits.get_node
   Bits.ith_leaf_bytes Bits.bitstr_of_nibs Bits.bitstr_len Bits.path_to_index Bits.index_to_path
-  Bits.set_bits_below Msg.mgetid Msg.mget Msg.msearchid.
+  Bits.set_bits_below Msg.mgetid Msg.mget Msg.msearchid
+  EndToEnd.to_wire Wire.marshal_gen.
